@@ -287,16 +287,18 @@ pub open spec fn diverged_post(s0: StateView, s: StateView, log1: Seq<RngEv>, in
         })
     &&& (!info.diverging ==> s.idx == info.num_steps)      // otherwise: the end of a trajectory of num_steps steps
 }
-pub open spec fn kernel_ok_post<M: Math, R: rand::Rng, A: AdaptStrategy<M, Hamiltonian = TransformedHamiltonian<M, T>>, T: Transformation<M>>(
-    c0: MclmcChain<M, R, A, T>, c1: MclmcChain<M, R, A, T>, resample: bool, s: StateView, info: MclmcInfo) -> bool
-{
-    let nd = failed_steps(c0.collector.leapfrogs(), c1.collector.leapfrogs(), info);
-    &&& steps_post(nd, nbs_r(c0.subsample_frequency.r(), c0.hamiltonian.momentum_decoherence_length, c0.hamiltonian.step_size.r()),
-                   c0.hamiltonian.step_size.r(), c0.dynamic_step_size, info)
-    &&& diverged_post(c0.state.view(), s, c1.rng.log(), info)
-    // full momentum resamples of this draw: the requested one at the start, and one after a divergence
-    &&& momenta(c1.rng.log()) == momenta(c0.rng.log()) + b2n(resample) + b2n(info.diverging)
-    // exactly one state is handed to the adaptation collector; without divergence it is the returned one
+/// [C18.1 C05.6] step accounting of the kernel, on the chain before / after
+pub open spec fn kernel_steps_post<M: Math, R: rand::Rng, A: AdaptStrategy<M, Hamiltonian = TransformedHamiltonian<M, T>>, T: Transformation<M>>(c0: MclmcChain<M, R, A, T>, c1: MclmcChain<M, R, A, T>, info: MclmcInfo) -> bool {
+    steps_post(failed_steps(c0.collector.leapfrogs(), c1.collector.leapfrogs(), info),
+               nbs_r(c0.subsample_frequency.r(), c0.hamiltonian.momentum_decoherence_length, c0.hamiltonian.step_size.r()),
+               c0.hamiltonian.step_size.r(), c0.dynamic_step_size, info)
+}
+/// [C18.2 C18.3] full momentum resamples of this draw: the requested one at the start, and one after a divergence
+pub open spec fn kernel_mom_post<M: Math, R: rand::Rng, A: AdaptStrategy<M, Hamiltonian = TransformedHamiltonian<M, T>>, T: Transformation<M>>(c0: MclmcChain<M, R, A, T>, c1: MclmcChain<M, R, A, T>, resample: bool, info: MclmcInfo) -> bool {
+    momenta(c1.rng.log()) == momenta(c0.rng.log()) + b2n(resample) + b2n(info.diverging)
+}
+/// exactly one state is handed to the adaptation collector; without divergence it is the returned one
+pub open spec fn kernel_coll_post<M: Math, R: rand::Rng, A: AdaptStrategy<M, Hamiltonian = TransformedHamiltonian<M, T>>, T: Transformation<M>>(c0: MclmcChain<M, R, A, T>, c1: MclmcChain<M, R, A, T>, s: StateView, info: MclmcInfo) -> bool {
     &&& c1.collector.draws().len() == c0.collector.draws().len() + 1
     &&& (!info.diverging ==> c1.collector.draws().last() == s)
 }
